@@ -10,7 +10,7 @@ from .engine import (OutOfSubset, PathEnd, PyExc, ReturnSig, BreakSig, ContinueS
 from .ops import OpsMixin, liftable
 from .calls import CallsMixin
 
-CLS = {'list': 1, 'dict': 2, 'set': 3, 'deque': 4, 'gen': 5}
+CLS = {'list': 1, 'dict': 2, 'set': 3, 'deque': 4, 'gen': 5, 'partial': 6}
 CONTAINER_CLS = (1, 2, 3, 4)
 
 
@@ -97,7 +97,7 @@ class Run(OpsMixin, CallsMixin):
         self.pc.append(cond)
         # path-feasibility pruning uses the quantifier-free part of the path condition only (fewer assumptions can
         # only make more paths look feasible, never fewer); obligations are always discharged under the full pc
-        if 'forall' not in sx and 'exists' not in sx and 'lambda' not in sx:
+        if 'forall' not in sx and 'exists' not in sx and 'lambda' not in sx and 'str.in_re' not in sx:
             self.solver.add(cond)
         self.pc_hash.update(sx.encode())
         self._note_tags(cond)
@@ -112,7 +112,8 @@ class Run(OpsMixin, CallsMixin):
         for idx, fact in enumerate(list(self.pc)):
             if idx in done:
                 continue
-            if z3.is_quantifier(fact) and fact.is_forall() and fact.num_vars() == 1 and fact.var_sort(0) == I:
+            if z3.is_quantifier(fact) and fact.is_forall() and fact.num_vars() == 1 \
+                    and fact.var_sort(0) == term.sort():
                 done.add(idx)
                 body = z3.substitute_vars(fact.body(), term)
                 self.assume(body)
@@ -393,7 +394,7 @@ class Run(OpsMixin, CallsMixin):
             self.check_loop_names()
             self.local_lists = find_local_lists(fn) if contract.kind != 'lemma' else set()
             for cl in contract.of('requires'):
-                self.assume(self.ev_spec(cl.expr))
+                self.assume_spec(cl.expr)
             if not self.feasible(z3.BoolVal(True) if not self.pc else self.pc[-1]):
                 raise PathEnd()
             self.entry = Snapshot(self)
@@ -470,6 +471,39 @@ class Run(OpsMixin, CallsMixin):
             return self.truth(v)
         finally:
             self.spec_mode -= 1
+
+    def assume_spec(self, node):
+        """Assume a specification expression conjunct by conjunct (through `and` and through calls of plain spec
+        functions), so that facts established by earlier conjuncts (types, classes) inform the evaluation of later
+        ones.  Equivalent to assume(ev_spec(node))."""
+        if isinstance(node, ast.BoolOp) and isinstance(node.op, ast.And):
+            for v in node.values:
+                self.assume_spec(v)
+            return
+        if isinstance(node, ast.Call) and isinstance(node.func, ast.Name) and node.func.id in self.eng.specs \
+                and node.func.id not in self.frames[-1].env and not node.keywords:
+            c = self.eng.specs[node.func.id]
+            from .calls import _is_recursive
+            if c.name not in self.opaque_names() and not _is_recursive(c) and len(node.args) == len(c.params):
+                body = [st for st in c.node.body
+                        if not (isinstance(st, ast.Expr) and isinstance(st.value, ast.Constant))]
+                if len(body) == 1 and isinstance(body[0], ast.Return):
+                    self.spec_mode += 1
+                    try:
+                        args = [self.ev(a) for a in node.args]
+                    finally:
+                        self.spec_mode -= 1
+                    fr = self.frames[-1]
+                    self.frames.append(Frame(fr.fn, fr.rel, dict(zip([p[0] for p in c.params], args)), fr.contract))
+                    saved_bound = self.bound
+                    self.bound = {}
+                    try:
+                        self.assume_spec(body[0].value)
+                    finally:
+                        self.bound = saved_bound
+                        self.frames.pop()
+                    return
+        self.assume(self.ev_spec(node))
 
     def ev_spec_val(self, node):
         self.spec_mode += 1
@@ -730,7 +764,7 @@ class Run(OpsMixin, CallsMixin):
             self.oblige(self.ev_spec(cl.expr), 'inv-entry', 'inv-entry:%s:%s' % (hdr, cl.tag or cl.line), st, cl.props)
         self.havoc_loop(st)
         for cl in spec['invs']:
-            self.assume(self.ev_spec(cl.expr))
+            self.assume_spec(cl.expr)
         for cl in spec['lemmas']:
             self.ev_spec_val(cl.expr)
         m0 = None
@@ -797,7 +831,7 @@ class Run(OpsMixin, CallsMixin):
         self.assume(k >= 0)
         self.assume(it.in_range(self, k))
         for cl in spec['invs']:
-            self.assume(self.ev_spec(cl.expr))
+            self.assume_spec(cl.expr)
         m0 = it.remaining(self, k)
         if not self.branch(it.has_next(self, k)):
             it.finish(self, k)
